@@ -182,6 +182,16 @@ def _gen_consts():
     return o
 
 
+@translator("Locks.v")
+def _gen_locks():
+    """field x function x R/W x held-locks table (translate/locks, go/ast + go/types over the Go source)."""
+    rc, o, e = sh(["go", "run", os.path.join(ROOT, "translate/locks/main.go"), REPO], timeout=300,
+                  cwd=os.path.join(ROOT, "translate/locks"), env_extra={"GO111MODULE": "off"})
+    if rc != 0 or "Definition lock_table" not in o:
+        raise RuntimeError("translate/locks failed: " + (e or o)[-1500:])
+    return o
+
+
 @translator("Wordlist.v")
 def _gen_wordlist():
     """BIP-39 English word list, read with a tokenizer from wordlists/english.go."""
